@@ -5,6 +5,7 @@ package main
 import (
 	"fmt"
 	"go/constant"
+	"go/token"
 	"go/types"
 	"strings"
 
@@ -479,4 +480,173 @@ func storedOrZero(a *Analysis, st *CNF, x *Term) bool {
 		ok = true
 	}
 	return ok
+}
+
+// ssaMayDependOn: may the SSA value v be computed from target? A backward
+// slice that over-approximates data dependence: every operand of an
+// instruction, every value stored into a local (or into an address derived
+// from it), every argument of a call whose result — or whose address argument —
+// is followed. An answer "false" therefore means v is *independent* of target
+// (within one function; memory reached through storage or globals is ignored).
+func ssaMayDependOn(v, target ssa.Value) bool {
+	seen := map[ssa.Value]bool{}
+	var visit func(x ssa.Value) bool
+	var stores func(addr ssa.Value) bool
+	stores = func(addr ssa.Value) bool {
+		refs := addr.Referrers()
+		if refs == nil {
+			return false
+		}
+		for _, r := range *refs {
+			switch r := r.(type) {
+			case *ssa.Store:
+				if r.Addr == addr && visit(r.Val) {
+					return true
+				}
+			case *ssa.IndexAddr:
+				if r.X == addr && (visit(r) || stores(r)) {
+					return true
+				}
+			case *ssa.FieldAddr:
+				if r.X == addr && (visit(r) || stores(r)) {
+					return true
+				}
+			case *ssa.Slice:
+				if r.X == addr && stores(r) {
+					return true
+				}
+			case ssa.CallInstruction:
+				// the callee may write through the address: whatever else it is given may end up there
+				for _, a := range r.Common().Args {
+					if a != addr && visit(a) {
+						return true
+					}
+				}
+			case *ssa.MapUpdate:
+				if r.Map == addr && (visit(r.Key) || visit(r.Value)) {
+					return true
+				}
+			}
+		}
+		return false
+	}
+	visit = func(x ssa.Value) bool {
+		if x == nil {
+			return false
+		}
+		if x == target {
+			return true
+		}
+		if seen[x] {
+			return false
+		}
+		seen[x] = true
+		switch x.(type) {
+		case *ssa.Alloc, *ssa.MakeMap, *ssa.MakeSlice:
+			if stores(x) {
+				return true
+			}
+		case *ssa.Slice, *ssa.IndexAddr, *ssa.FieldAddr:
+			if stores(x) {
+				return true
+			}
+		}
+		if ins, ok := x.(ssa.Instruction); ok {
+			for _, op := range ins.Operands(nil) {
+				if *op != nil && visit(*op) {
+					return true
+				}
+			}
+		}
+		return false
+	}
+	return visit(v)
+}
+
+// orderAxioms: clauses that every total order on the integers satisfies,
+// instantiated for the given pairs of terms — asymmetry, trichotomy, equality
+// excludes both orders, and discreteness (p < q ⇔ ¬(q < p+1)). The fact engine
+// treats comparison literals as opaque atoms; a rule that must not depend on
+// how a test is spelled (`a <= b` where a ≠ b is known, `a+1 <= b` for `a < b`)
+// hands these to entails().
+func (a *Analysis) orderAxioms(pairs ...[2]*Term) [][]int32 {
+	tb := a.tb
+	one := tb.constInt(1)
+	var out [][]int32
+	for _, pr := range pairs {
+		p, q := pr[0], pr[1]
+		if p == nil || q == nil || p == q {
+			continue
+		}
+		pq, qp, eq := a.litLt(p, q), a.litLt(q, p), a.eqLit(p, q)
+		out = append(out, []int32{-pq, -qp}, []int32{pq, eq, qp}, []int32{-eq, -pq}, []int32{-eq, -qp})
+		p1 := tb.binop(token.ADD, p, one, intType)
+		q1 := tb.binop(token.ADD, q, one, intType)
+		qp1, pq1 := a.litLt(q, p1), a.litLt(p, q1)
+		out = append(out, []int32{-pq, -qp1}, []int32{pq, qp1}, []int32{-qp, -pq1}, []int32{qp, pq1})
+	}
+	return out
+}
+
+// entails: the state together with the axioms entails the disjunction of lits.
+func (a *Analysis) entails(st *CNF, axioms [][]int32, lits ...int32) bool {
+	if st == nil {
+		return false
+	}
+	units := make([]int32, len(lits))
+	for i, l := range lits {
+		units[i] = -l
+	}
+	return !a.satisfiable(st, units, axioms)
+}
+
+// eqAxioms: transitivity of equality, instantiated along the chains of Eq
+// literals of the state that start at the given terms (a value handed through
+// helper parameters and results is a chain of phi == phi equalities; the fact
+// engine propagates units, it does not close equalities).
+func (a *Analysis) eqAxioms(st *CNF, roots ...*Term) [][]int32 {
+	if st == nil {
+		return nil
+	}
+	adj := map[*Term][]*Term{}
+	seenPair := map[[2]*Term]bool{}
+	for _, c := range st.cl {
+		for _, x := range c {
+			l, _ := a.lt.get(x)
+			if l.Kind != KEq || l.A == nil || l.B == nil || seenPair[[2]*Term{l.A, l.B}] {
+				continue
+			}
+			seenPair[[2]*Term{l.A, l.B}] = true
+			adj[l.A] = append(adj[l.A], l.B)
+			adj[l.B] = append(adj[l.B], l.A)
+		}
+	}
+	var out [][]int32
+	for _, r := range roots {
+		if r == nil {
+			continue
+		}
+		seen := map[*Term]bool{r: true}
+		frontier := []*Term{r}
+		for depth := 0; depth < 5 && len(frontier) > 0; depth++ {
+			var next []*Term
+			for _, mid := range frontier {
+				for _, nb := range adj[mid] {
+					if nb == r {
+						continue
+					}
+					if mid != r {
+						// also for a neighbour already reached another way: each path is a different derivation
+						out = append(out, []int32{-a.eqLit(r, mid), -a.eqLit(mid, nb), a.eqLit(r, nb)})
+					}
+					if !seen[nb] {
+						seen[nb] = true
+						next = append(next, nb)
+					}
+				}
+			}
+			frontier = next
+		}
+	}
+	return out
 }
